@@ -1,5 +1,5 @@
 SPECIFICATION Spec
-CONSTANTS NRows = 5  MaxV = 3  Upw = 2  MinPts = 2  NDim = 3  MaskSpace = "position"
+CONSTANTS NRows = 5  MaxV = 3  Upw = 2  MinPts = 2  NDim = 2  MaskSpace = "position"
 CHECK_DEADLOCK FALSE
 INVARIANT IntervalOwnData
 INVARIANT KeptExactly
